@@ -228,6 +228,14 @@ class Flow:
             return
         if isinstance(s, ast.Assign):
             t, v = self.expr(s.value)
+            ann = getattr(s, "ann", None)
+            if ann is not None:
+                ty = ann_to_ty(ann, set(self.model.classes))
+                if ty is not None and ty.name in ("object", "Any"):
+                    ty = None            # uninformative annotation: keep the inferred type
+                if t is not None and ty is not None and ty.name in ("SortedSet", "list", "SortedDict") and not ty.args:
+                    ty = t if t.name == ty.name else ty
+                t = ty or t
             for tg in s.targets:
                 self.assign(tg, t, v, s)
             return
